@@ -51,6 +51,13 @@ Audit strata (send side, other blocking points, which timeout governs):
            valid NON-application record (a TLS 1.3 post-handshake CertificateRequest, which the client's TLS layer
            consumes and answers without handing anything up) -- then silence.  Attempt 2 must end with a transient
            failure within the chain.  'fd readable' is not 'application data available' on TLS.
+  default  relay given NO TLS context (the default of StaticSmtpRelay / StaticLmtpRelay): SMTP and LMTP, STARTTLS and
+  context  tls_immediately, next hop silent after 220 / after accept, trickling ServerHello bytes, or completing the
+           handshake with the (untrusted) test certificate.  Each case is ONE attempt in a CHILD PROCESS
+           (vf/c14_default_ctx_child.py, judged inside by the same timer chain): a handshake on a non-cooperative SSL
+           socket freezes the whole process, so only the parent's subprocess timeout can see it -- child killed while
+           the same scenario with an explicit vf.tls context finishes => 'whole-process-stalled'; both slow =>
+           inconclusive.  Two explicit-context cases run always, as controls of the child harness.
   split    'which timeout governs': only the timeout documented for the stalled step is T, the others are 1000 s
            (relay: connect -> connect_timeout; command replies, STARTTLS handshake, AUTH -> command_timeout;
            message send and end-of-data reply -> data_timeout; banner and immediate-TLS handshake: connect and
@@ -181,7 +188,7 @@ REQUIRED_HITS = ['http-reuse-judged', 'relay-reuse-judged', 'relay-probe-judged'
                  'relay-stall-judged', 'relay-trickle-judged', 'relay-error-class-checked',
                  'relay-client-greenlet-checked', 'pipe-stall-judged', 'http-stall-judged',
                  'control-succeeded', 'server-write-stall-judged', 'relay-send-stall-judged',
-                 'idle-expiry-judged', 'relay-tls-idle-probe-judged', 'http-client-greenlet-checked', 'mx-dns-stall-judged', 'split-timeouts-judged']
+                 'idle-expiry-judged', 'relay-tls-idle-probe-judged', 'default-context-judged', 'http-client-greenlet-checked', 'mx-dns-stall-judged', 'split-timeouts-judged']
 SHARDS = {'quick': 4, 'thorough': 16}
 BUDGET = {'quick': 50, 'thorough': 600}
 
@@ -2082,6 +2089,85 @@ def run_wsgi_observation(sub):
         edge.server.stop(timeout=0)
 
 
+# ---------------------------------------------------------------- relay with the DEFAULT TLS context (child process)
+
+CHILD_TIMEOUT = 25.0       # real time; only ever yields inconclusive (a frozen hub is diagnosed INSIDE the child)
+_CHILD = os.path.join(os.path.dirname(os.path.dirname(os.path.abspath(__file__))), 'vf', 'c14_default_ctx_child.py')
+
+
+def _run_child(arg, timeout):
+    """-> (dict printed by the child | None, 'finished' | 'killed-by-timeout' | 'crashed: ..')."""
+    import json
+    from gevent import subprocess as gsub
+    try:
+        p = gsub.run([sys.executable, _CHILD, json.dumps(arg)], stdout=gsub.PIPE, stderr=gsub.PIPE, timeout=timeout)
+    except gsub.TimeoutExpired:
+        return None, 'killed-by-timeout'
+    for line in p.stdout.decode('utf-8', 'replace').splitlines()[::-1]:
+        if line.startswith('{'):
+            try:
+                return json.loads(line), 'finished'
+            except ValueError:
+                break
+    return None, 'crashed: rc=%s %s' % (p.returncode, p.stderr.decode('utf-8', 'replace')[-200:])
+
+
+def run_default_ctx_case(sub):
+    """StaticSmtpRelay / StaticLmtpRelay given NO TLS context, STARTTLS or tls_immediately, next hop silent in / trickling
+    / completing (untrusted certificate) the handshake -- in a child process, because a handshake on a blocking SSL
+    socket freezes the whole process (vf/c14_default_ctx_child.py).  Child printed its result: judged like any relay
+    stall (attempt ended within the chain, transient).  Child's watchdog THREAD reported that the hub did not run for
+    max(3 s, 15*T) while the thread itself was scheduled all along: the SAME scenario is run with an explicit vf.tls
+    context -- that one finishing normally means the harness and the machine are fine and the first child's hub was
+    frozen by the code under test ('whole-process-stalled'); otherwise inconclusive.  Child killed by the parent's
+    subprocess timeout (neither result nor diagnosis in time): inconclusive, never a verdict."""
+    res = Result()
+    T = sub['T']
+    timeout = CHILD_TIMEOUT
+    arg = {'proto': sub['proto'], 'mode': sub['stage'], 'pattern': sub['pattern'], 'context': sub.get('context', 'default'),
+           'T': T}
+    out, how = _run_child(arg, timeout)
+    res.detail.update({'T': T, 'child_argument': arg, 'child': how, 'child_timeout': timeout, 'child_result': out})
+    if how.startswith('crashed'):
+        res.inconc = 'harness-exception: child process ' + how[:200]
+        return res
+    if how == 'killed-by-timeout':
+        res.inconc = 'watchdog: child process printed neither a result nor a diagnosis within %gs' % timeout
+        return res
+    if out.get('hub_frozen'):
+        ctl, chow = _run_child(dict(arg, context='explicit'), timeout)
+        res.detail.update({'control_child_with_explicit_context': chow, 'control_child_result': ctl})
+        if chow != 'finished' or (ctl or {}).get('hub_frozen') or not (ctl or {}).get('done') \
+                or arg['context'] == 'explicit':
+            res.inconc = 'watchdog: the hub of the child process did not run for %ss, but its control did not finish ' \
+                         'normally either (%s)' % (out.get('for'), chow)
+            return res
+        res.hits.append('default-context-judged')
+        res.failed.append(('whole-process-stalled',
+                           'relay without a TLS context (%s, %s, next hop %s in the handshake, timeouts %gs): the hub of '
+                           'the child process running this ONE attempt did not run for %ss (main thread at %s) while a '
+                           'thread of the same process was scheduled %d times; the same scenario with an explicit '
+                           'gevent context ended normally (%s): the handshake blocks the whole process'
+                           % (arg['proto'], arg['mode'], arg['pattern'], T, out.get('for'),
+                              (out.get('main_thread_at') or ['?'])[-1], out.get('watchdog_thread_wakeups_meanwhile', 0),
+                              (ctl or {}).get('outcome', '?')[:60])))
+        return res
+    if sub['pattern'] != 'untrusted' and not out.get('stall_began'):
+        res.inconc = 'stall-stage-not-reached: attempt in the child ended (%s) before the handshake stalled' % out.get('outcome')
+        return res
+    res.hits.append('default-context-judged')
+    res.obs.append(('relay-outcome', (sub['proto'], 'tls-default-context', sub['stage'], sub['pattern'],
+                                      (out.get('outcome') or '')[:40])))
+    if not out.get('done'):
+        res.detail['blocked_at'] = out.get('blocked_at')
+        res.failed.append(('still-blocked', 'attempt in the child still blocked after %d*T (T=%gs) since the next hop %s in '
+                           'the TLS handshake; blocked at %s' % (K, T, sub['pattern'], (out.get('blocked_at') or ['?'])[-1])))
+    elif not out.get('transient'):
+        res.failed.append(('wrong-error-class', 'attempt ended with "%s" instead of a TransientRelayError'
+                           % out.get('outcome')))
+    return res
+
+
 # ---------------------------------------------------------------- MX relay: a resolver that never answers
 
 DNS_T = 0.1            # the stub channel's own timeout (c-ares: Channel(timeout=..., tries=1))
@@ -2338,7 +2424,7 @@ def _key(sub):
     T = sub.get('T_nominal', sub['T'])
     return (sub['side'], sub.get('proto'), sub['stage'], sub['pattern'], sub.get('pipelining'), sub.get('nrcpt'),
             bool(sub.get('tls')), bool(sub.get('idle')),
-            (sec['stage'], sec.get('mode'), sec.get('pattern')) if sec else None, sub.get('tls_mode'),
+            (sec['stage'], sec.get('mode'), sec.get('pattern')) if sec else None, sub.get('tls_mode'), sub.get('context'),
             bool(sub.get('split')), bool(sub.get('big')), T)
 
 
@@ -2462,6 +2548,14 @@ def all_subcases(tier, seed):
                     for s2 in ('mail', 'rcpt0', 'data', 'eod0', 'rset', 'quit'):
                         add(stall, side='relay', proto=proto, pipelining=pl, nrcpt=1, stage='none', pattern='stall',
                             T=T, idle=RELAY_IDLE, second={'stage': s2, 'mode': 'reuse'})
+    # relay given NO TLS context (library default), each case in a child process; plus explicit-context controls
+    T = TS_SLOW[tier][0]
+    for proto in ('smtp', 'lmtp'):
+        for mode in ('starttls', 'immediate'):
+            for pattern in ('silent', 'trickle', 'untrusted'):
+                add(stall, side='relay-default-ctx', proto=proto, stage=mode, pattern=pattern, T=T)
+    add(stall, side='relay-default-ctx', proto='smtp', stage='starttls', pattern='silent', T=T, context='explicit')
+    add(stall, side='relay-default-ctx', proto='lmtp', stage='immediate', pattern='trickle', T=T, context='explicit')
     # 'split' cases: only the timeout documented to govern the stalled step is T, the others are BIG
     T = TS[tier][-1]
     for stage in sorted(SERVER_STAGES):
@@ -2540,6 +2634,10 @@ def mechanism(sub, clause, detail=None, label='first'):
         cb = [b[-1] for b in (detail or {}).get('client_blocked_at', []) if b]
         if cb and all(x.startswith('http/__init__.py:close:') for x in cb):
             return 'http/close/tls-peer-silent/' + clause
+    if sub['side'] == 'relay-default-ctx':
+        return 'relay-%s/tls-default-context/%s-%s/%s' % (sub['proto'], sub['stage'], sub['pattern'], clause) \
+            if sub.get('context') != 'explicit' else \
+            'relay-%s/tls-explicit-context/%s-%s/%s' % (sub['proto'], sub['stage'], sub['pattern'], clause)
     parts = [side, sub['stage'], sub['pattern']]
     if sub['side'] == 'relay':
         parts.append('pipelining' if sub['pipelining'] else 'no-pipelining')
@@ -2565,6 +2663,8 @@ def run_sub(sub):
         return run_wsgi_observation(sub)
     if side == 'relay-mx':
         return run_mx_dns_case(sub)
+    if side == 'relay-default-ctx':
+        return run_default_ctx_case(sub)
     if sub['stage'] == 'idle-expiry':
         return run_relay_idle_expiry_case(sub)
     if is_control(sub):
